@@ -58,7 +58,12 @@ def installed(chooser, bundle="axis6", rw_maxiter=None, events=None, fault_steps
         # rotates with the number of draws so far - still a deterministic function of the choice prefix
         default = 0 if vec_default == "first" else vec_calls["n"] * 5 + vec_calls["n"] // 7
         vec_calls["n"] += 1
-        return a + chooser.choose("vec", b - a + 1, default)
+        # macro-step reduction: inside one update_positions call only the FIRST try is a branching point. A rejected try
+        # only deletes the vector from a local copy of the bundle (no engine event - checked by the oracle), so every
+        # reachable post-state "accept v" is produced by trying v first; later tries follow the default order.
+        kind = "vec" if vec_calls.get("first_try", True) else "vec-retry"
+        vec_calls["first_try"] = False
+        return a + chooser.choose(kind, b - a + 1, default)
     patch(random, "randint", py_randint)
     # ---- start grid index
     grid_calls = {"n": 0}
@@ -138,6 +143,7 @@ def installed(chooser, bundle="axis6", rw_maxiter=None, events=None, fault_steps
                            {n: bool(self.molecule.nodes[n].get("build", True)) for n in self.molecule.nodes}))
                 self._path_emitted = True
             ev.append(("step-check", self.mol_idx, path.index((prev_node, current_node))))
+            vec_calls["first_try"] = True
             if fault_steps and chooser.choose("fault-step", 2, 0) == 1:
                 ev.append(("step-result", self.mol_idx, current_node, False, "injected"))
                 return False
